@@ -18,7 +18,7 @@ import (
 const keyDeleteAlias = "C23-delete-loses-sibling-rules"
 
 func TestMain(m *testing.M) {
-	vlib.Rule("C23: rapid-generated sequences of add / re-add / delete / JSON-round-trip operations on a FilerConf, rules drawn from a fixed set of nested and sibling prefixes (/, /a, /a/, /a/b, /ab, /a/b/c, /b, /abc, /a/c, /b/a, /buckets/x, /buckets/y) with every field independently set or unset; after every operation MatchStorageRule is compared with a reference resolver on paths over {/,a,b,c} (all 21845 paths up to length 7 in the thorough tier, every rule prefix +- one character plus a random sample in the quick tier). Non-trivial = some checked path is matched by >=2 nested rules that both set the same field. Distinct = distinct operation sequence.")
+	vlib.Rule("C23: rapid-generated sequences of add / re-add / delete / JSON-round-trip operations on a FilerConf, rules drawn from a fixed set of nested and sibling prefixes (/, /a, /a/, /a/b, /ab, /a/b/c, /b, /abc, /a/c, /b/a, /buckets/x, /buckets/y) with every field independently set or unset; after every operation MatchStorageRule is compared with a reference resolver on paths over {/,a,b,c} (all 21845 paths up to length 7 in the thorough tier, every rule prefix +- one character plus a random sample in the quick tier). Plus histories of 2-6 successive versions of /etc/seaweedfs/filer.conf (rules removed / changed / added, written by ToText or as hand-edited JSON) delivered to a live Filer (leveldb store) as update / create / moved-into-directory metadata events through onMetadataChangeEvent or picked up by LoadFilerConf, interleaved with events about other files; after each version MatchStorageRule must equal the reference built from the latest file only (these count as non-trivial when a rule was removed). Non-trivial = some checked path is matched by >=2 nested rules that both set the same field. Distinct = distinct operation sequence.")
 	vlib.Assume("C23: rule prefixes are non-empty (fs.configure refuses an empty -locationPrefix; ptrie panics on an empty key); the reference reads 'a rule sets a bool field' as 'the field is true'.")
 	vlib.Main(m)
 }
